@@ -9,3 +9,15 @@ CHECKS = {
    text="Complete enumeration of all 192001 tick multiples within +-2000 beats (string/float/Decimal round trips), plus seeded random search over exact constructions, operator pairs in both operand orders, inexact inputs including constructed exact ties and near-ties, and timing-event lists carried through BeatValues and through SM/SSC simfiles into TimingData. Exhaustive on the grid, sampled beyond it; absence outside the generated domain is not shown.",
    note="Trusted: CPython Fraction/Decimal, msdparser tokenizer, Hypothesis."),
 }
+CHECKS["C11"] = dict(level="exploration", ref="DESIGN.md section 5 C11, 4.5",
+   technique="property-based testing against an exact rational reference model (Hypothesis timelines + complete enumeration of small event placements + metamorphic relations)",
+   text="time_at/bpm_at compared with an exact Fraction evaluation of the timeline to 1e-9 s at every event beat, warp end, neighbouring tick and generated beat under every EventTag; complete for all sets of up to 4 events on a 6-point beat grid (thorough; 3 quick), sampled beyond; monotonicity, offset-shift and redundant-BPM relations. Absence outside the generated domain and magnitude bound is not shown.",
+   note="Trusted: the reference model vf/model_timing.py, CPython Fraction/Decimal, the SSCSimfile -> TimingData reader (C14). Float comparison sound below 1e5 s only.")
+CHECKS["C12"] = dict(level="exploration", ref="DESIGN.md section 5 C12, 4.5",
+   technique="property-based testing against an exact rational reference model, round trip and metamorphic (redundant BPM insertion) relations",
+   text="beat_at judged clause by clause (round trip on unskipped ticks, pause interiors, half-tick tolerance elsewhere, exact expected beat at boundary times for the WARP and default tags, monotonicity, independence of redundant earlier BPM changes) on the same timelines as C11; boundary times are the engine's own time_at values. Complete on the small placement grid, sampled beyond.",
+   note="Trusted: vf/model_timing.py; float order equals rational order because distinct event times are >= 6e-4 s apart in the generated domain. Delay-only beats inside warps are not claimed.")
+CHECKS["C13"] = dict(level="exploration", ref="DESIGN.md section 5 C13",
+   technique="property-based testing against the exact warp-union model and a note grid model (Hypothesis + complete small placements)",
+   text="hittable() compared with the warp-union rule on every tick around every event; time_notes compared with the expected sequence for all three options over routine/keysounded note data placed on warp edges and pauses, times to 1e-9 s. Complete on the small placement grid, sampled beyond.",
+   note="Trusted: vf/model_timing.py, vf/gen_notes.py (grid -> text renderer and expected notes).")
